@@ -18,7 +18,7 @@ def _now():
     return _dt.datetime.utcnow()
 
 
-def h07(c, U=3, R=1, other_market=False):
+def h07(c, U=3, R=1, other_market=False, suspensions=False, real_time_error=False):
     """real FlumineSimulation._process_market_books / process_order_package / _check_pending_packages / calc_simulated_delay /
     elapsed_seconds / SimulatedExecution under flumine's own SimulatedDateTime with symbolic publish times, latencies and bet delays"""
     lat = {k: c.mills("%s_latency" % k, 0, 5000) for k in ("place", "cancel", "update", "replace")}
@@ -32,6 +32,10 @@ def h07(c, U=3, R=1, other_market=False):
         def process_market_book(strategy, market, market_book):
             k = state["k"]
             log["now_seen"].append((k, market.market_id, _now(), market_book.publish_time))
+            if real_time_error and k == 0 and market.market_id == cm.MID:
+                # a strategy times an external call on the real clock and that call fails (the framework contains the error)
+                with fl.simulated_datetime.real_time():
+                    raise RuntimeError("external call failed")
             if market.market_id != cm.MID or k != u_req:
                 return
             for r, kind in enumerate(reqs):
@@ -90,6 +94,11 @@ def h07(c, U=3, R=1, other_market=False):
                 tv = 100.0 + 2.0 * k  # 2.00 traded at 3.0 between consecutive updates -> 1.00 eligible
                 b = cm.book([cm.runner(1, atl=[{"price": 3.0, "size": 7.0}], tv=[{"price": 3.0, "size": tv}]), cm.runner(2)], version=7,
                             pt=times[k][0], pt_ms=times[k][1], bet_delay=delays[k])
+                if suspensions and k > u_req and c.choose("update%d_suspended" % k, [False, True]):
+                    # the update that suspends the market: requests falling due on it are executed against the state before it
+                    b.status = "SUSPENDED"
+                    b.version = 8
+                    c.cover("suspended-update")
                 books.append(b)
                 state["k"] = k
                 state["books"][k] = b
@@ -116,7 +125,7 @@ def h07(c, U=3, R=1, other_market=False):
                         else:
                             tr = {"cancel": S.CANCELLING, "update": S.UPDATING, "replace": S.REPLACING}[kind]
                             c.ob("update%d.req%d.still-in-flight" % (k, r), o.status == tr or o.status == S.EXECUTION_COMPLETE)
-                            if k > u_req and len([x for x in state["resting"] if x is not None]) == 1:
+                            if k > u_req and len([x for x in state["resting"] if x is not None]) == 1 and not suspensions:
                                 # still fillable as before: the lone resting order gets the eligible volume of this update (1.00)
                                 got = cm.total([f[2] for f in o.simulated.matched if c.is_true(f[0] == times[k][1])]) if o.simulated.matched else 0
                                 exp = c.smin(1.0, o.order_type.size - 1.0 * max(0, (k - 1 - u_req)) if False else 1.0)
@@ -170,6 +179,9 @@ HARNESSES = [
             max_paths=(300000, 3000000), wall_s=(300, 3000)),
     Harness("H07-2req", h07, quick=dict(U=3, R=2), thorough=dict(U=4, R=2), pattern="P3 with symbolic time", requires=["run", "executed"], outside=OUT,
             max_paths=(300000, 3000000), wall_s=(300, 3000)),
+    Harness("H07-susp", h07, quick=dict(U=3, R=1, suspensions=True), thorough=dict(U=4, R=1, suspensions=True), pattern="P3 with symbolic time",
+            requires=["run", "executed", "suspended-update"], outside=OUT, max_paths=(300000, 3000000), wall_s=(300, 3000)),
+    Harness("H07-rt", h07, quick=dict(U=3, R=1, real_time_error=True), pattern="P3 with symbolic time", requires=["run", "executed"], outside=OUT),
     Harness("H07-2mkt", h07, quick=dict(U=3, R=1, other_market=True), thorough=dict(U=4, R=1, other_market=True), pattern="P3 with symbolic time",
             requires=["run", "executed", "other-market-update"], outside=OUT, max_paths=(300000, 3000000), wall_s=(300, 3000)),
 ]
